@@ -63,3 +63,21 @@ def forwarding(chk: Check, rule: str, proj: Project, cg: CallGraph, modules: Seq
                 else:
                     chk.holds(rule, key, m.loc(c), f"all shared parameters reach {g.name}()")
     chk.floor(rule, n, floor)
+
+
+MEMO_DECORATORS = ("lru_cache", "cache", "cached", "memoize", "memoized")
+
+
+def no_value_keyed_memo(chk: Check, rule: str, proj: Project, funcs: List[Tuple[str, str]], why: str) -> None:
+    """None of `funcs` (module, qualified name) is wrapped in a value-keyed memo decorator. `why` says what the function
+    reads that a memo would freeze."""
+    for mod, q in funcs:
+        r = proj.try_func(mod, q)
+        if r is None:
+            chk.undecided(rule, f"{mod}:{q}:not-memoised", "?", f"{mod}:{q} not found")
+            continue
+        m, f = r
+        decs = [norm(d.func) if isinstance(d, ast.Call) else norm(d) for d in f.decorator_list]
+        memo = [d for d in decs if d.split(".")[-1] in MEMO_DECORATORS]
+        chk.ob(rule, f"{mod}:{q}:not-memoised", m.loc(f), not memo,
+               "no memo decorator" if not memo else f"`@{memo[0]}` freezes the first answer for equal arguments, but {why}")
